@@ -964,8 +964,10 @@ class Parser:
 
     def _parse_postfix_expression(self) -> Node:
         """Parse postfix expression (member access, calls, postfix ++/--)."""
-        expr = self._parse_new_expression()
+        return self._parse_postfix_operators(self._parse_new_expression())
 
+    def _parse_postfix_operators(self, expr: Node) -> Node:
+        """Apply member accesses, calls and postfix ++/-- that follow expr."""
         while True:
             if self._match(TokenType.DOT):
                 # Member access: a.b (keywords allowed as property names)
@@ -1082,7 +1084,10 @@ class Parser:
                 # check if there are operators between this ) and the next
                 if i < paren_depth - 1:
                     # Continue parsing any operators that might be between parens
-                    # like in ((-Infinity) | 0)
+                    # like in ((-Infinity) | 0). The group just closed is a
+                    # primary expression, so postfix operators bind first:
+                    # ((a).b), ((f)(x)), ((a.b)++)
+                    expr = self._parse_postfix_operators(expr)
                     expr = self._continue_parsing_expression(expr)
 
             return expr
